@@ -287,6 +287,11 @@ def run(ctx):
             net["init_pos_std"] = [10.0, 10.0, 30.0, 5.0][ctx.shard]
             net["nsteps"] = max(net["nsteps"], 3)
             ctx.count("forced_multi_sensor_miss_nets")
+        if rng.random() < 0.3:
+            # a geostationary target: a sensor tasked on it step after step keeps (almost) the same pointing
+            net["targets"][0]["radius"] = 42164.0
+            net["nsteps"] = max(net["nsteps"], 3)
+            ctx.count("nets_with_a_geostationary_target")
         net["save_every"] = rng.choice([1, 1, 2, 3])
         netkit.maybe_sub_second_start(net, rng)
         if len(net["sensors"]) >= 2 and len(net["targets"]) >= 2 and rng.random() < 0.3:
